@@ -8,6 +8,11 @@ NOT_APPLICABLE = {
     'C03': 'C++ exception capture/transport/rethrow: CBMC\'s usable front end here is C, extraction drops try/catch, so no contract can mention the behaviour (DESIGN.md §6)',
 }
 CLAIMS = {
+    'C19': {
+        'technique': 'rely/guarantee proofs on CBMC with dfcc loop contracts for the collaborative_call_once state word (winner election, helper references, completion) and the ETS slot claim; loop-free / width-bounded harnesses for the ETS hashing and sizing arithmetic',
+        'text': 'collaborative_call_once: for any number of threads (SC) the winner is elected only from uninitialized, only the winner completes and only once all helper references are gone, the helper count never carries into the runner pointer bits, and a call returns normally only when the state is done - also after winners that threw. ETS: every probe index lies inside the array for all hashes and lg_size in [2,63]; after the sizing loop the new array is at most half full; a slot key goes empty->k once and belongs to the thread whose CAS installed it.',
+        'note': 'Trusted: run_once/assist/lifetime_guard as stubs (run_once ends through the sliced set_completion_state), spin_wait contracts, SC atomics, assumption A (a freshly changed runner word is not already saturated with 127 helpers). Not decided: runner lifetime, the functor running once inside run_once (C01), table_lookup as a whole, combine/iteration, termination.',
+    },
     'C20': {
         'technique': 'thread-modular rely/guarantee proof on CBMC of the two-party hand-shake over suspend_point_type::m_stack_state: each party\'s sliced code is proved against the other party\'s possible steps, ghost push counter with owed-by markers',
         'text': 'Given one resume() call per suspension: in both orders of the resumer\'s and the leaver\'s exchanges exactly one resume task is pushed, never while the stack is still active, only by the party that owes it; the state follows A->S->N or A->N->S->N; recall_owner marks a suspended stack notified and raises the recall flag.',
